@@ -228,12 +228,14 @@ def run_scenarios(scs, procs=14):
         return pool.map(_run_one, scs, chunksize=max(1, len(scs) // (procs * 8)))
 
 
-def validate(prop, scs, ctx: Ctx, also=(), extra_cov=None, extra_traces=(), keep_items=False):
+def validate(prop, scs, ctx: Ctx, also=(), extra_cov=None, extra_traces=(), keep_items=False, results=None):
     """Run scenarios, validate traces with TLC, build the Outcome for property `prop`.
     Clauses owned by `prop` or by a property in `also` are violations of `prop`; other clauses become notes.
-    ``extra_traces`` = already recorded executions [(trace, diag, scenario)] (guided replays of TLC behaviours)."""
+    ``extra_traces`` = already recorded executions [(trace, diag, scenario)] (guided replays of TLC behaviours).
+    ``results`` = run_scenarios(scs) if the caller has run them already (e.g. while TLC was busy with the L2 models)."""
     t0 = time.time()
-    results = run_scenarios(scs)
+    if results is None:
+        results = run_scenarios(scs)
     t_run = time.time() - t0
     scs = list(scs) + [x[2] for x in extra_traces]
     results = list(results) + [(x[0], x[1], None) for x in extra_traces]
